@@ -146,7 +146,6 @@ const (
 // reference index keeps a reference that no row holds.
 // ---------------------------------------------------------------------------
 func TestHuntSameUUIDInTwoTablesNotCollected(t *testing.T) {
-	t.Skip("item of the first audit, triaged in DESIGN.md 7.1: outside the property as stated, or recorded under another check")
 	db := huntDB(t)
 
 	if e := huntTransact(t, db,
@@ -182,7 +181,6 @@ func TestHuntSameUUIDInTwoTablesNotCollected(t *testing.T) {
 // while the other gains one; the row that lost it is not collected and the
 // reference index of the other forgets a referrer.
 func TestHuntSameUUIDInTwoTablesMixed(t *testing.T) {
-	t.Skip("item of the first audit, triaged in DESIGN.md 7.1: outside the property as stated, or recorded under another check")
 	db := huntDB(t)
 
 	if e := huntTransact(t, db,
@@ -220,7 +218,6 @@ func TestHuntSameUUIDInTwoTablesMixed(t *testing.T) {
 // "the uuid" as deleted, so the referenced row is taken for already deleted
 // and is not collected.
 func TestHuntSameUUIDReferrerAndReferenced(t *testing.T) {
-	t.Skip("item of the first audit, triaged in DESIGN.md 7.1: outside the property as stated, or recorded under another check")
 	db := huntDB(t)
 	if e := huntTransact(t, db,
 		ovsdb.Operation{Op: ovsdb.OperationInsert, Table: "Owner", UUID: huntX,
